@@ -28,6 +28,10 @@ CHECKS = {
    text="The real geometric conversions and lat-lon / temporal CovModel code are executed on two symbolic lat-lon points (any latitude in [-90,90], any longitude), symbolic geo_scale, time and time anisotropy: embedding on the sphere of radius geo_scale, chord^2 = 2R^2(1-cos central angle) = 4R^2·haversine argument, isometrize == latlon2pos(radius=geo_scale, time/anis[-1]), Yadrenko covariance/variogram == isotropic function of the chord 2R sin(zeta/2R), chordal<->great-circle inverse pair, pos2latlon∘latlon2pos = id on the open chart and latlon2pos∘pos2latlon∘latlon2pos = latlon2pos everywhere (poles, date line; staged through lemmas), fit_variogram lag conversion, and for metric space-time models (dim 2-4) time scaled by the last ratio only, never rotated into space.",
    note="sin/cos/arcsin/arctan2/sqrt uninterpreted with principal-range, injectivity and polar-decomposition axioms; pi symbolic between 3.1415926 and 3.1415927; kriging rotation-invariance on the sphere and the haversine kernel are covered under C05/C08 when those checks are present.",
    technique="symbolic execution of the real coordinate-conversion code + SMT with trig axioms and staged lemmas", ref="DESIGN.md §4 C13"),
+ "C03": dict(engine="E1-symnp",
+   text="For the 17 shipped model classes (dim 1-3, all parameters and the lag symbolic, every branch of the real cor/correlation code) the solver decides variogram = var+nugget-covariance, covariance = var·correlation, correlation(r) = cor(rescale·r/len_scale), the nugget-aware variants (differ only at r=0), the per-axis variants, and equality of the correlation with the documented closed form (14 classes; special functions as shared uninterpreted symbols, Matérn through an exp-log lemma); integral scale == closed-form integral of the correlation branch in use and integral_scale assignment (6 classes), percentile scale as root of the variogram fraction; user-defined models given by any one of cor/correlation/covariance/variogram yield the same derived functions.",
+   note="exp_int (generalised exponential integral) is replaced by an uninterpreted E_s(x) -- its internal switches and the closed forms of the truncated-power-law correlations are outside; hurst fixed to 0.5 (thorough also 0.25) for TPL models; quad-based integral scales are opaque; inside np.isclose bands the limiting value is taken. Known findings: Matern nu>20 integral scale; TPL cor() vs correlation() for len_low>0.",
+   technique="symbolic execution of the real model code + SMT equivalence with documented closed forms", ref="DESIGN.md §4 C03"),
 }
 
 PENDING_REASON = "check not built yet in this session (work in progress; see DESIGN.md §7 build order)"
